@@ -125,7 +125,11 @@ func c09CHShapes(thorough bool) []c09CHShape {
 	echs := []int{0, 5, 20, 200}
 	fills := []int{0, 30}
 	if thorough {
-		names = []int{0, 1, 2, 3, 9, 16, 100, 255}
+		// (an empty host_name is not in the alphabet: RFC 6066 defines HostName<1..2^16-1> and
+		// crypto/tls, the only producer of ClientHellos the scrambler sees, omits the extension
+		// when there is no name. The scrambler computes an empty cut for it and stalls: recorded in
+		// DESIGN.md 5.3 as a false alarm of the first thorough run, not a finding.)
+		names = []int{1, 2, 3, 9, 16, 100, 255}
 		echs = []int{0, 5, 11, 12, 13, 20, 200}
 		fills = []int{0, 1, 30, 700}
 	}
